@@ -9,12 +9,7 @@ import (
 func sortStrings(s []string) { sort.Strings(s) }
 
 // What each check decides (structural necessary conditions) and what it declines; repeated in the evidence.
-var propText = map[string][2]string{
-	"C04": {
-		"Static effect analysis (go/ssa + VTA call graph): every store, map update, delete, append and copy in every function reachable from Template.Execute*/ExecuteBlocks, every node's Execute/Evaluate, every registered filter and ApplyFilter (cut at the Template constructor) is classified by the origin of the written memory; writes into compiled-tree types (Template, Token, Parser, every INode/IEvaluator implementation and the structs reachable from them) or package variables are violations unless the object was allocated by the same execution. Also: no reflect.Set*/unsafe; clock/randomness/map-order sources are enumerated against the documented exclusions.",
-		"The equality of two renderings as such (outputs are never computed); user-supplied Go functions, Stringers, loaders.",
-	},
-}
+var propText = map[string][2]string{}
 
 func explanationFor(id string) string {
 	if t, ok := propText[id]; ok {
